@@ -151,11 +151,28 @@ def _contains(root, node):
     return False
 
 
-def handler_names(prog, module, h):
+def handler_type_exprs(prog, module, h, cls=None):
+    """The class expressions a handler names, a constant holding the tuple
+    (module level, or class level through self./cls./Class.) resolved."""
+    t = h.type
+    if isinstance(t, (ast.Name, ast.Attribute)):
+        c = prog.const_expr(module, t, cls, names_ok=True)
+        if c is None and isinstance(t, ast.Attribute) and isinstance(
+                t.value, ast.Name) and t.value.id in ('self', 'cls'):
+            for ci in module.classes.values():
+                c = prog.class_constants(ci.qual, names_ok=True).get(t.attr)
+                if c is not None:
+                    break
+        if isinstance(c, ast.Tuple):
+            return list(c.elts)
+    return t.elts if isinstance(t, ast.Tuple) else [t]
+
+
+def handler_names(prog, module, h, cls=None):
     if h.type is None:
         return ['builtin:BaseException']
-    ts = h.type.elts if isinstance(h.type, ast.Tuple) else [h.type]
-    return [prog.resolve(module, t) or U(t) for t in ts]
+    return [prog.resolve(module, t) or U(t)
+            for t in handler_type_exprs(prog, module, h, cls)]
 
 
 def need(cond, msg):
